@@ -296,7 +296,7 @@ def target_drt_command(which: str):
     qual = which
 
     def run(sess: Session):
-        for n_data, method, threshold, analyze in itertools.product((1, 2), ("tr-nnls", "bht"), (-1.0, 0.5), (False, True)):
+        for n_data, method, threshold, analyze, answer in itertools.product((1, 2), ("tr-nnls", "bht"), (-1.0, 0.5), (False, True), (True, False)):
             if which == "overlay_plot" and analyze:
                 continue
             ds = [FakeData(f"d{i}") for i in range(n_data)]
@@ -364,6 +364,8 @@ def target_drt_command(which: str):
                   "enumerate": enumerate, "hasattr": hasattr, "isinstance": lambda a, b: False, "LMResult": object, "open": None, "_color_axis": lambda *a, **k: None,
                   "DataFrame": None, "DRTPeaks": None, "DRTResult": None, "DataSet": None}
             O.load(DRTM, [qual], ns)
+            # a decision the command takes on an option VALUE (e.g. normalising --lambda-value) is answered both ways, one run each
+            DF.reset_fallback(answer)
             ns[qual]({"path": list(ds)}, args, printed.append)
             tag = f"[data sets={n_data},method={method},peak_threshold={threshold},analyze_peaks={analyze}]"
             sess.check("post", [], z3.BoolVal(filtered == ds), 0, label=f"{tag}apply_filters on every data set, once, before it is analysed")
